@@ -139,6 +139,8 @@ class Tr:
             return '(ECall "fdiv" [%s; %s])' % (self.expr(e.left.args[0]), self.expr(e.right))     # a float quotient: the tie says which rational
         if isinstance(e, ast.BinOp) and isinstance(e.op, ast.Div) and self.qdiv:
             return '(ECall "qdiv" [%s; %s])' % (self.expr(e.left), self.expr(e.right))
+        if isinstance(e, ast.BinOp) and isinstance(e.op, ast.FloorDiv):
+            return '(ECall "floordiv" [%s; %s])' % (self.expr(e.left), self.expr(e.right))       # integer floor division: a primitive of the tie
         if isinstance(e, ast.BinOp) and isinstance(e.op, ast.Pow):
             return '(ECall "pow" [%s; %s])' % (self.expr(e.left), self.expr(e.right))
         if isinstance(e, ast.BinOp) and isinstance(e.op, ast.Mod) and not (isinstance(e.left, ast.Constant) and isinstance(e.left.value, str)):
@@ -222,6 +224,9 @@ class Tr:
                 return '(EAdd %s (EListLit [%s]))' % (self.expr(e.args[0]), self.expr(e.args[1]))   # a new array, one entry longer
             if dotted(f) in ('cp.deepcopy', 'copy.deepcopy') and len(e.args) == 1 and not e.keywords:
                 return self.expr(e.args[0])        # values of the embedding are immutable: a deep copy is the value
+            if dotted(f) in ('np.arange', 'numpy.arange') and len(e.args) == 3 and len(e.keywords) == 1 and e.keywords[0].arg == 'dtype' \
+                    and isinstance(e.keywords[0].value, ast.Name) and e.keywords[0].value.id == 'int':
+                return '(ECall "arange3" [%s])' % '; '.join(self.expr(a) for a in e.args)      # np.arange(start, stop, step, dtype=int)
             if dotted(f) in ('np.arange', 'numpy.arange', 'range') and len(e.args) in (1, 2) and not e.keywords:
                 lo = self.expr(e.args[0]) if len(e.args) == 2 else '(EConst (VInt (0)))'
                 return '(ERange %s %s)' % (lo, self.expr(e.args[-1]))
@@ -243,6 +248,11 @@ class Tr:
             if isinstance(f, ast.Attribute) and dotted(f.value) == 'self.SeqObj' and not e.keywords:
                 # the public class forwarding to its backend object: primitive "SeqObj.<method>"(args)
                 return '(ECall %s [%s])' % (cstring('SeqObj.' + f.attr), '; '.join(self.expr(a) for a in e.args))
+            if isinstance(f, ast.Attribute) and dotted(f.value) == 'self.ComplexityObject' and not e.keywords:
+                # the backend object forwarding to its complexity object: primitive "ComplexityObject.<method>"(args)
+                return '(ECall %s [%s])' % (cstring('ComplexityObject.' + f.attr), '; '.join(self.expr(a) for a in e.args))
+            if isinstance(f, ast.Name) and f.id == 'abs' and len(e.args) == 1 and not e.keywords:
+                return '(ECall "abs" [%s])' % self.expr(e.args[0])
             if isinstance(f, ast.Attribute) and isinstance(f.value, ast.Name) and f.value.id == 'self':
                 # a call of another method of the object: interpreted by the tie's primitive table
                 name = f.attr + ''.join('|' + k.arg for k in e.keywords)
@@ -408,6 +418,8 @@ class Tr:
                     x = self.target(v.func.value)                 # set.add(e): append unless already a member
                     ex = self.expr(v.args[0])
                     return '(SIf (ENotIn %s (EVar %s)) (SAppend %s %s) SSkip)' % (ex, x, x, ex)
+                if isinstance(v.func, ast.Attribute) and dotted(v.func.value) == 'self.SeqObj' and not v.keywords:
+                    return '(SAssign "$_" %s)' % self.expr(v)      # a backend method called for its effect: the call, result discarded
             raise Untranslatable('expression statement')
         if isinstance(s, ast.Pass):
             return 'SSkip'
@@ -444,6 +456,14 @@ class Tr:
                 raise Untranslatable('for-else')
             return '(SFor %s %s %s)' % (self.target(s.target), self.expr(s.iter), self.block(s.body))
         if isinstance(s, ast.Try):
+            # try: x = x.upper() except AttributeError: pass   — upper-case when x is a string, untouched otherwise
+            if (not s.orelse and not s.finalbody and len(s.handlers) == 1 and isinstance(s.handlers[0].type, ast.Name)
+                    and s.handlers[0].type.id == 'AttributeError' and len(s.handlers[0].body) == 1 and isinstance(s.handlers[0].body[0], ast.Pass)
+                    and len(s.body) == 1 and isinstance(s.body[0], ast.Assign) and len(s.body[0].targets) == 1
+                    and isinstance(s.body[0].targets[0], ast.Name)
+                    and ast.unparse(s.body[0].value) == '%s.upper()' % s.body[0].targets[0].id):
+                x = s.body[0].targets[0].id
+                return '(SIf (EIsStr (EVar %s)) %s SSkip)' % (cstring(x), self.stmt(s.body[0]))
             # try: BODY except E: raise ...   — whatever BODY raises, an exception leaves the statement: same as BODY
             ok = (not s.orelse and not s.finalbody and s.handlers and
                   all(len(h.body) == 1 and isinstance(h.body[0], ast.Raise) for h in s.handlers))
@@ -552,6 +572,12 @@ FUNCS = [
     ('g_fw_get_fraction_expanding', 'localcider/sequenceParameters.py', 'SequenceParameters', 'get_fraction_expanding', []),
     ('g_fw_get_kappa_after_phosphorylation', 'localcider/sequenceParameters.py', 'SequenceParameters', 'get_kappa_after_phosphorylation', []),
     ('g_fw_get_sequence', 'localcider/sequenceParameters.py', 'SequenceParameters', 'get_sequence', []),
+    ('g_fw_set_phosphosites', 'localcider/sequenceParameters.py', 'SequenceParameters', 'set_phosphosites', []),
+    ('g_fw_clear_phosphosites', 'localcider/sequenceParameters.py', 'SequenceParameters', 'clear_phosphosites', []),
+    ('g_fw_get_full_phosphostatus', 'localcider/sequenceParameters.py', 'SequenceParameters', 'get_full_phosphostatus_kappa_distribution', []),
+    ('g_numstates', 'localcider/backend/sequence.py', 'Sequence', 'calculateNumberDifferentPhosphoStates', []),
+    ('g_mean_net_charge', 'localcider/backend/sequence.py', 'Sequence', 'mean_net_charge', []),
+    ('g_get_reducedAlphabetSequence', 'localcider/backend/sequence.py', 'Sequence', 'get_reducedAlphabetSequence', []),
     ('g_verify_pH', 'localcider/sequenceParameters.py', 'SequenceParameters', '__verify_pH', []),
     ('g_charge_at_pH', 'localcider/backend/sequence.py', 'Sequence', 'charge_at_pH', ['data.aminoacids.', 'aminoacids.']),
     ('g_phosdist', 'localcider/backend/sequence.py', 'Sequence', 'calculateKappaDistOfPhosphoStates', []),
@@ -582,6 +608,14 @@ FUNCS = [
     ('g_linFCR', 'localcider/backend/sequence.py', 'Sequence', 'linearDistOfFCR', []),
     ('g_linSigma', 'localcider/backend/sequence.py', 'Sequence', 'linearDistOfSigma', []),
     ('g_check_window', 'localcider/backend/sequence.py', 'Sequence', '__check_window_to_length', []),
+    ('g_indexed', 'localcider/backend/sequenceComplexity.py', 'SequenceComplexity', 'get_indexed_complexity_vector', []),
+    ('g_get_WF_complexity', 'localcider/backend/sequenceComplexity.py', 'SequenceComplexity', 'get_WF_complexity', []),
+    ('g_get_LC_complexity', 'localcider/backend/sequenceComplexity.py', 'SequenceComplexity', 'get_LC_complexity', []),
+    ('g_get_LZW_complexity', 'localcider/backend/sequenceComplexity.py', 'SequenceComplexity', 'get_LZW_complexity', []),
+    ('g_get_linear_WF', 'localcider/backend/sequence.py', 'Sequence', 'get_linear_WF_complexity', []),
+    ('g_get_linear_LC', 'localcider/backend/sequence.py', 'Sequence', 'get_linear_LC_complexity', []),
+    ('g_get_linear_LZW', 'localcider/backend/sequence.py', 'Sequence', 'get_linear_LZW_complexity', []),
+    ('g_fw_get_linear_complexity', 'localcider/sequenceParameters.py', 'SequenceParameters', 'get_linear_complexity', []),
     ('g_LZW', 'localcider/backend/sequenceComplexity.py', 'SequenceComplexity', 'LZW', []),
     ('g_CWF', 'localcider/backend/sequenceComplexity.py', 'SequenceComplexity', 'CWF', []),
     ('g_LC', 'localcider/backend/sequenceComplexity.py', 'SequenceComplexity', 'LC', []),
